@@ -24,7 +24,7 @@ import types
 import z3
 
 from segvc import extract
-from segvc.core import CLASSES, H, RefT, register_class
+from segvc.core import CLASSES, H, REAL, RefT, Sym, register_class
 from segvc.unit import C08, Case, ClassSpec, Contract, LemmaUnit, MethodUnit
 from specs import c09_lock as L
 from specs import c10_limiter as LIM
@@ -141,7 +141,12 @@ class AwaitDelegation(LemmaUnit):
 
     props = ("C08",)
     name = "C08/path"
-    functions = ((FUT, "Future.__await__"), (TSK, "TaskHandle.__await__"), ("anyio/_backends/_asyncio.py", "AsyncIOBackend.run_sync_in_worker_thread"), ("anyio/_backends/_asyncio.py", "AsyncIOBackend.checkpoint"))
+    functions = (
+        (FUT, "Future.__await__"),
+        (TSK, "TaskHandle.__await__"),
+        ("anyio/_backends/_asyncio.py", "AsyncIOBackend.run_sync_in_worker_thread"),
+        ("anyio/_backends/_asyncio.py", "AsyncIOBackend.checkpoint"),
+    )
 
     def lemma(self, ip):
         def first_stmt(modpath, qual):
@@ -149,17 +154,169 @@ class AwaitDelegation(LemmaUnit):
             body = [s for s in node.body if not (isinstance(s, ast.Expr) and isinstance(s.value, ast.Constant))]
             return ast.unparse(body[0]) if body else ""
 
+        def whole_body(modpath, qual):
+            node = extract.module(modpath).get(qual)
+            body = [s for s in node.body if not (isinstance(s, ast.Expr) and isinstance(s.value, ast.Constant))]
+            return "; ".join(ast.unparse(s).replace("\n", " ") for s in body)
+
         checks = [
             ("Future.__await__/c08:delegates_unconditionally_to_wait", first_stmt(FUT, "Future.__await__") == "yield from self.wait().__await__()"),
             ("TaskHandle.__await__/c08:delegates_unconditionally_to_the_event_wait", first_stmt(TSK, "TaskHandle.__await__") == "yield from self._finished_event.wait().__await__()"),
             ("AsyncIOBackend.run_sync_in_worker_thread/c08:checkpoint_is_the_first_statement", first_stmt("anyio/_backends/_asyncio.py", "AsyncIOBackend.run_sync_in_worker_thread") == "await cls.checkpoint()"),
             ("AsyncIOBackend.checkpoint/c08:is_sleep_0", first_stmt("anyio/_backends/_asyncio.py", "AsyncIOBackend.checkpoint") == "await sleep(0)"),
         ]
+        changed = []
         for name, ok in checks:
             if ok:
                 ip.ctx.oblige(name, z3.BoolVal(True), "post")
+            elif "delegates_to_the_backend" in name or "is_asyncio_sleep" in name or "under_a_shield" in name:
+                # a one-statement front-end whose text changed: the comparison cannot tell a harmless rewrite from a
+                # broken one, so this is *undecided* (exit 2) and the native probe of replayers/C08.py decides
+                changed.append(name)
             else:
                 ip.ctx.fail(name, "post", "the function no longer starts with the expected checkpoint / delegation")
+        if changed:
+            from segvc.core import Unsupported
+
+            raise Unsupported("the text of a one-statement checkpoint front-end changed: " + ", ".join(changed))
 
 
 UNITS.append(AwaitDelegation)
+
+
+# ---- the one-statement front-ends of the table (sleep / checkpoint family): executed symbolically, so that a rewrite
+# ---- through a local is not mistaken for a change of behaviour
+
+from segvc.interp import AwaitableVal, Builtin, ClassVal, NS  # noqa: E402
+from segvc.unit import FunctionUnit  # noqa: E402
+
+
+class FrontEndUnit(FunctionUnit):
+    props = ("C08",)
+    trusted = ("E8",)
+    target = None  # backend method that must be awaited exactly once with the caller's arguments
+    nargs = 0
+
+    def props_of(self, name):
+        return {"C08"}
+
+    def __init__(self):
+        super().__init__()
+        unit = self
+
+        class Backend:
+            pass
+
+        self.backend = Backend()
+        self.globals = {"get_async_backend": Builtin("get_async_backend", lambda ip: unit.backend)}
+
+    def model_getattr(self, ip, obj, attr):
+        if obj is self.backend:
+            def call(ip, *a, **k):
+                self.calls.append((attr, a, k, ip.ctx.flags["suspended"]))
+                return AwaitableVal("checkpoint")
+
+            return Builtin(f"backend.{attr}", call)
+        return NotImplemented
+
+    def make_args(self, ip):
+        self.calls = []
+        self.args = [Sym(z3.Real(f"arg{i}"), __import__("segvc.core", fromlist=["REAL"]).REAL) for i in range(self.nargs)]
+        return list(self.args), {}
+
+    def on_exit(self, ip, pre, exc, ret):
+        ok = len(self.calls) == 1 and self.calls[0][0] == self.target and len(self.calls[0][1]) == self.nargs and all(x is y for x, y in zip(self.calls[0][1], self.args)) and not self.calls[0][2]
+        ip.ctx.oblige(f"{self.funcname}/c08:awaits_exactly_the_backends_{self.target}_with_the_callers_arguments", z3.And(z3.BoolVal(ok), z3.BoolVal(ip.ctx.flags["suspended"] == 1 or exc is not None)), "post")
+
+
+def front_end(modpath, funcname, target, nargs=0):
+    return type(f"FrontEnd_{funcname}", (FrontEndUnit,), {"modpath": modpath, "funcname": funcname, "target": target, "nargs": nargs})
+
+
+UNITS += [
+    front_end("anyio/lowlevel.py", "checkpoint", "checkpoint"),
+    front_end("anyio/lowlevel.py", "checkpoint_if_cancelled", "checkpoint_if_cancelled"),
+    front_end("anyio/lowlevel.py", "cancel_shielded_checkpoint", "cancel_shielded_checkpoint"),
+    front_end("anyio/_core/_eventloop.py", "sleep", "sleep", nargs=1),
+]
+
+
+class ShieldedCheckpointUnit(FunctionUnit):
+    """AsyncIOBackend.cancel_shielded_checkpoint: exactly one asyncio.sleep(0), inside a scope created with shield=True"""
+
+    props = ("C08",)
+    trusted = ("E8", "A-shield")
+    modpath = "anyio/_backends/_asyncio.py"
+    funcname = "AsyncIOBackend.cancel_shielded_checkpoint"
+
+    def props_of(self, name):
+        return {"C08"}
+
+    def __init__(self):
+        super().__init__()
+        unit = self
+
+        class Scope:
+            def __init__(self, shield):
+                self.shield = shield
+
+        def new_scope(ip, shield=False, **k):
+            sc = Scope(shield)
+            unit.scopes.append(sc)
+            return sc
+
+        def sleep(ip, d=None):
+            unit.sleeps.append((d, unit.depth, [s.shield for s in unit.scopes]))
+            return AwaitableVal("cancel_shielded_checkpoint")
+
+        self.Scope = Scope
+        self.globals = {"CancelScope": Builtin("CancelScope", new_scope), "sleep": Builtin("asyncio.sleep", sleep)}
+
+    def model_getattr(self, ip, obj, attr):
+        if isinstance(obj, self.Scope):
+            if attr == "__enter__":
+                def enter(ip):
+                    self.depth += 1
+                    return obj
+
+                return Builtin("CancelScope.__enter__", enter)
+            if attr == "__exit__":
+                def exit_(ip, *a):
+                    self.depth -= 1
+                    return False
+
+                return Builtin("CancelScope.__exit__", exit_)
+        return NotImplemented
+
+    def make_args(self, ip):
+        self.scopes, self.sleeps, self.depth = [], [], 0
+        return [ClassVal("AsyncIOBackend")], {}
+
+    def on_exit(self, ip, pre, exc, ret):
+        ok = len(self.sleeps) == 1 and self.sleeps[0][0] == 0 and self.sleeps[0][1] == 1 and self.sleeps[0][2] == [True]
+        ip.ctx.oblige("AsyncIOBackend.cancel_shielded_checkpoint/c08:one_sleep_0_inside_a_shielded_scope", z3.BoolVal(ok), "post")
+
+
+class BackendSleepUnit(FrontEndUnit):
+    """AsyncIOBackend.sleep(delay) is asyncio.sleep(delay)"""
+
+    modpath = "anyio/_backends/_asyncio.py"
+    funcname = "AsyncIOBackend.sleep"
+
+    def __init__(self):
+        super().__init__()
+        self.globals = {"sleep": Builtin("asyncio.sleep", lambda ip, d: (self.calls.append(("sleep", (d,), {}, 0)), AwaitableVal("checkpoint"))[1])}
+
+    def make_args(self, ip):
+        from segvc.core import REAL
+
+        self.calls = []
+        self.delay = Sym(z3.Real("delay"), REAL)
+        return [ClassVal("AsyncIOBackend"), self.delay], {}
+
+    def on_exit(self, ip, pre, exc, ret):
+        ok = len(self.calls) == 1 and self.calls[0][1][0] is self.delay
+        ip.ctx.oblige("AsyncIOBackend.sleep/c08:is_one_asyncio_sleep_of_the_given_delay", z3.BoolVal(ok), "post")
+
+
+UNITS += [ShieldedCheckpointUnit, BackendSleepUnit]
